@@ -30,4 +30,19 @@ PROPS = {
                     "crossbeam Steal::Retry loops are not modelled (lock-freedom of crossbeam is trusted)"],
         "assumptions": ["sequential histories; concurrent reachability of a spinning state is covered by the loop bound holding from *every* state of the local map"],
     },
+    "C05": {
+        "props_module": "OcVerif.Props.C05",
+        "components": [{"name": "oq", "quick": 1500, "thorough": 150000, "nontrivial_labels": 3, "quick_shards": 8}],
+        "trusted": ["model files lean/OcVerif/Model/Queue/{Ordered,Run}.lean",
+                    "residence (which queue holds an item) is the model's, valid up to the first divergence between model and implementation"],
+        "assumptions": ["sequential histories (the property quantifies over single-threaded histories)"],
+    },
+    "C06": {
+        "props_module": "OcVerif.Props.C06",
+        "components": [{"name": "oq", "quick": 1500, "thorough": 150000, "nontrivial_labels": 3, "quick_shards": 8},
+                       {"name": "pq", "quick": 1000, "thorough": 100000, "nontrivial_labels": 3, "quick_shards": 8}],
+        "trusted": ["model files lean/OcVerif/Model/Queue/{Ordered,Plain,Run}.lean",
+                    "starvation counter and idle check use the model's residence up to the first divergence"],
+        "assumptions": ["C06_idle is proved for local capacity >= 1; capacity 0 (nothing is ever stored locally) is covered by the correspondence runs only"],
+    },
 }
